@@ -3937,7 +3937,12 @@ ASSUMED_MODELS = [
     "zipfile.ZipFile (constructor, infolist, read, context manager), ZipInfo.is_dir()/flag_bits/filename/file_size",
     "tarfile.open, TarFile.getmembers/extractfile, TarInfo.isreg()/name/size", "SevenZipFile (needs_password, list, extractall) as seen from archive_extractor",
     "tempfile.TemporaryDirectory (fresh private path)", "os.path.exists", "time.perf_counter",
-    "sevenzip._safe_join (C09), archive_extractor._should_skip_file (C09), _get_file_extractor_cached (C07/C15), SevenZipReader._apply_decoder (Trust)",
+    "sevenzip._safe_join at its call sites (verified here for WHEN it refuses a name, by C09 for confinement), archive_extractor._should_skip_file (C09), "
+    "_get_file_extractor_cached (C07/C15), SevenZipReader._apply_decoder (Trust)",
+    "os.path.splitdrive / isabs / abspath / normpath uninterpreted (C09's models), POSIX os.sep / os.pardir / os.curdir",
+    "str.split(sep): n >= 1 pieces without sep, s starts with piece 0 (+ sep when n > 1) and ends with the last piece, n == 1 iff sep not in s",
+    "ZipFile.read raises RuntimeError on an encrypted member (ghost flag zip_read_refused); APPNOTE 4.4.4: general purpose bit 0 = encrypted",
+    "int-valued enum members compare / hash / print as their ints (PY-INTENUM); with-statement over a plain module class = PEP 343 expansion",
 ]
 ASSUMPTIONS = [
     "PY-INT with exact bit-vector encoding", "PY-GEN", "EXC-ANY for un-modelled library calls", "logger calls dropped (PY-LOG)",
